@@ -221,6 +221,14 @@ def run_sequence(ctx, case):
                 problems.append(f"op {k}: refused {kind}({why}) altered the file")
             if res == "WOk":
                 model = new_model if exp == "WOk" else (spec["cols"], spec["units"], spec["meta"], None)
+            if not case["fits"] and os.path.exists(fn):
+                # the file layout Gen/WriteGen.v speaks about: exactly the table dataset and its serialized-header dataset, always together
+                import h5py
+
+                with h5py.File(fn, "r") as hf:
+                    keys = sorted(hf.keys())
+                if keys != ["samples", "samples.__table_column_meta__"]:
+                    problems.append(f"op {k} {kind}: the file holds the datasets {keys}, expected the table and its serialized header (well-formedness of Gen/WriteGen.v)")
             ops.append(f"OWrite {coq_bool(ow)} {coq_bool(app)} {tbl_term(spec['cols'], spec['units'], spec['meta'], spec['rows'])} {res}")
             if model is not None and model[3] is None:
                 problems.append("file state unknown after a wrongly accepted write; sequence stopped")
